@@ -60,6 +60,9 @@ func splitComment(w int) bufio.SplitFunc {
 		}
 
 		if atEOF && len(data) > start {
+			if len(data) >= w && lastSpace != 0 { // the end of input bounds the last word like a space
+				return lastSpace, data[start:lastSpace], nil
+			}
 			return len(data), bytes.TrimSpace(data[start:]), nil
 		}
 
